@@ -181,6 +181,8 @@ def property_theorems(pid):
     """Re-check Properties/<pid>.v with coqc and collect Print Assumptions output.
     Returns dict(ok, theorems=[names], closed=n, axioms=[...], log)."""
     src = COQ / "Properties" / (pid + ".v")
+    if not src.exists():
+        return dict(ok=False, theorems=[], closed=0, axioms=[], log="coq/Properties/%s.v does not exist" % pid)
     names = re.findall(r"^\s*Theorem\s+(\w+)", src.read_text(), flags=re.M)
     d = scratch("coqprop-")
     rc, out = sh("coqc -Q %s '' -o %s/%s.vo %s" % (COQ, d, pid, src), cwd=d, timeout=1200)
